@@ -157,7 +157,7 @@ func Synthesize(sc Scenario, res *Result) {
 	if res.Wild {
 		return
 	}
-	sim := NewSim(sc.Cfg, res.Obs.Logs)
+	sim := NewSim(sc.Cfg, res.Obs.Logs, res.Obs.Left)
 	for _, e := range res.Ctl {
 		sim.Feed(e)
 	}
